@@ -11,6 +11,7 @@ import z3
 from pyvc import sym, arr
 from pyvc.arr import SymArray
 from pyvc.harness import Unit
+from pyvc import harness
 from pyvc.sym import SB, SC, SI, SR, check, explore, assume, cis
 from checks import ops_common as oc, c02
 
@@ -158,7 +159,14 @@ def run_step(mutate=None):
 
 def units():
     return [Unit("covariant_operators", "tdgl.finite_volume.operators:build_gradient / MeshOperators.get_supercurrent / laplacian stencil", run_operators, props=["C04"], timeout=600),
-            Unit("step_covariance", "tdgl.solver.solver:TDGLSolver.solve_for_psi_squared", run_step, props=["C04"], timeout=600)]
+            Unit("step_covariance", "tdgl.solver.solver:TDGLSolver.solve_for_psi_squared", run_step, props=["C04"], timeout=600),
+            harness.bounded_unit("whole runs in two gauges [bounded]", "tdgl.solver.solver:TDGLSolver.solve (real runs)", "C04", _pairs,
+                                 "whole_run_reproduced_in_a_uniformly_shifted_gauge[3 scenarios]", timeout=900)]
+
+
+def _pairs():
+    from checks import c04_native
+    return c04_native.run_pairs(0)
 
 
 def replay_scope(unit, obl):
@@ -168,6 +176,9 @@ def replay_scope(unit, obl):
 
 def replay(unit, obl):
     from checks import c04_native
+    if "bounded" in unit:
+        bad, n = c04_native.run_pairs(0)
+        return dict(confirmed=bool(bad), failing_input=(bad or [None])[0], evaluations=n)
     return c04_native.replay(unit, obl)
 
 
